@@ -27,7 +27,8 @@ VARIABLES committed,   \* content of the zone as visible outside the transaction
           replacing,   \* the open write transaction was begun with replacement=True
           nops,        \* calls made in this transaction
           res,         \* "ok" | "refused"   outcome of the last call
-          val          \* value returned by the last read: <<"-">>, <<"none">>, <<"rds", ttl, rds>>, <<"bool", b>>
+          val          \* value returned by the last read: <<"-">>, <<"none">>, <<"rds", ttl, rds>>, <<"bool", b>>,
+                       \* <<"names", set>>, <<"node", set of types>>
 
 vars == <<committed, working, mode, replacing, nops, res, val>>
 
@@ -173,6 +174,28 @@ Exists(inzone, n) ==
             /\ val' = <<"bool", NameExists(working, n)>>
             /\ UNCHANGED <<committed, working, mode, replacing>>
 
+(* iterate_names(): the owner names present;  get_node(name): the rdataset types there *)
+IterNames ==
+    /\ Open /\ Called
+    /\ res' = "ok" /\ val' = <<"names", {k[1] : k \in DOMAIN working}>>
+    /\ UNCHANGED <<committed, working, mode, replacing>>
+
+GetNode(inzone, n) ==
+    /\ Open /\ Called
+    /\ IF ~inzone THEN Refuse
+       ELSE /\ res' = "ok"
+            /\ val' = IF NameExists(working, n) THEN <<"node", NodeTypes(working, n)>> ELSE <<"none">>
+            /\ UNCHANGED <<committed, working, mode, replacing>>
+
+(* changed(): FALSE guarantees that nothing was changed; TRUE is also allowed after calls
+   that touched a node without changing its content (a free choice) *)
+Changed(answer) ==
+    /\ Open /\ Called
+    /\ (answer = FALSE => (mode = "read" \/ working = (IF replacing THEN <<>> ELSE committed)))
+    /\ (mode = "read" => answer = FALSE)
+    /\ res' = "ok" /\ val' = <<"bool", answer>>
+    /\ UNCHANGED <<committed, working, mode, replacing>>
+
 (* an exception thrown by a check_put_rdataset callback: the call fails, nothing stored *)
 CallbackRaises ==
     /\ mode = "write" /\ Called /\ Refuse
@@ -214,7 +237,9 @@ Step ==
     \/ \E n \in Names, ty \in Types, ex \in BOOLEAN : \E rds \in RdSets(ty) : DeleteRdatas(ex, TRUE, n, ty, rds)
     \/ \E a \in SerialArgs : UpdateSerial(a)
     \/ \E n \in Names, ty \in Types : Get(TRUE, n, ty)
-    \/ \E n \in Names : Exists(TRUE, n)
+    \/ \E n \in Names : Exists(TRUE, n) \/ GetNode(TRUE, n)
+    \/ IterNames
+    \/ \E b \in BOOLEAN : Changed(b)
     \/ DeleteName(FALSE, FALSE, "@")     \* an out-of-zone owner
     \/ CallbackRaises
 
